@@ -27,8 +27,9 @@ def run(chk, thorough):
         types.setdefault(tk, len(types) + 1)
         ik = (tuple(sorted(c["ms"])), c["alt"], c["foreign"])
         ifaces.setdefault(ik, len(ifaces) + 1)
-    p1 = ["package p1", ""]
-    p2 = ["package p2", ""]
+    b2i = "func b2i(b bool) int { if b { return 1 }; return 0 }"
+    p1 = ["package p1", "", b2i]
+    p2 = ["package p2", "", b2i]
     for b, own in enumerate(BASE, 1):
         p1.append("type E%d struct{ pad int }" % b)
         for i, rk in enumerate(own):
@@ -58,15 +59,19 @@ def run(chk, thorough):
         for slot, i in enumerate([1, 2, 3, 4]):
             if i in ms and not (alt and i == 1):
                 calls.append("r[%d] = v.%s()" % (slot, NAMES[i - 1]))
-        out.append("func Call%d(x any) (ok bool, r [4]int) { v, ok := x.(I%d); _ = v; if ok { %s }; return ok, r }" % (iid, iid, "; ".join(calls)))
-    main = ["package main", "", 'import (', '\t"c07m/p1"', '\t"c07m/p2"', ")", "", "func show(k int, ok bool, r [4]int) { println(k, ok, r[0], r[1], r[2], r[3]) }", "", "func main() {"]
+        # a second, separate conversion of the same value must compare equal to the first wherever interface values meet
+        # (struct equality and interface-keyed maps go through the interface type's own equality function)
+        calls.append("w, _ := x.(I%d); r[4] = b2i(any(struct{ i I%d }{v}) == any(struct{ i I%d }{w})); "
+                     "m := map[I%d]int{v: 1}; m[w] += 2; r[4] += 10 * len(m) + 100 * m[v]" % (iid, iid, iid, iid))
+        out.append("func Call%d(x any) (ok bool, r [5]int) { v, ok := x.(I%d); _ = v; if ok { %s }; return ok, r }" % (iid, iid, "; ".join(calls)))
+    main = ["package main", "", 'import (', '\t"c07m/p1"', '\t"c07m/p2"', ")", "", "func show(k int, ok bool, r [5]int) { println(k, ok, r[0], r[1], r[2], r[3], r[4]) }", "", "func main() {"]
     expect = {}
     for k, c in enumerate(cases, 1):
         tid = types[(tuple(c["own"]), c["emb"], c["base"])]
         iid = ifaces[(tuple(sorted(c["ms"])), c["alt"], c["foreign"])]
         pk = "p2" if c["foreign"] else "p1"
         main.append("\t{ ok, r := %s.Call%d(p1.Mk%s%d()); show(%d, ok, r) }" % (pk, iid, "P" if c["ptr"] else "V", tid, k))
-        r = [0, 0, 0, 0]
+        r = [0, 0, 0, 0, 311 if c["ok"] else 0]     # equal (1), one map entry (10), both updates on it (300)
         if c["ok"]:
             for i in c["ms"]:
                 if c["alt"] and i == 1:
@@ -82,7 +87,7 @@ def run(chk, thorough):
         out = {}
         for ln in text.splitlines():
             w = ln.split()
-            if len(w) == 6 and w[0].isdigit():
+            if len(w) == 7 and w[0].isdigit():
                 out[int(w[0])] = (w[1] == "true", [int(x) for x in w[2:]])
         return out
     ref = os.path.join(d, "ref.exe")
